@@ -53,7 +53,11 @@ def handleGrid (toks0 : List String) : Option String := do
   let b ← arg toks0 "b"
   let via := (arg toks0 "via").getD "blanket"
   let (toks, tail) ← if b = "Svm" && via = "setters" then svmSetterToks toks0 else some (toks0, "")
-  let chk ← Gen.C04.checkByName b toks
+  -- `rebuild=<setter>[:after|:before]`: a setter that does not assign a guarded field was applied after / before the
+  -- value setters of the request; the model applies its rebuild function to the decoded point
+  let chk ← match arg toks0 "rebuild" with
+    | none => Gen.C04.checkByName b toks
+    | some variant => Ranges.checkRebuilt b variant toks
   let (inr, fin) ← Ranges.rangeByName b toks
   -- trait level: the parameter point is a token (`()`): the decision depends on the guard only
   let guard : Unit → Except String Unit := fun _ => chk
